@@ -1942,7 +1942,13 @@ void identify_global_search_terms(mmd_engine * e, scratch_pad * scratch) {
 }
 
 
+void ran_start(long seed);
+
 void mmd_engine_export_token_tree(DString * out, mmd_engine * e, short format) {
+
+	// Start the obfuscation generator from its initial state for every export, so
+	// that the output does not depend on what was converted earlier in the process
+	ran_start(314159L);
 
 	// Process potential reference definitions
 	process_definition_stack(e);
